@@ -51,6 +51,9 @@ type AssignTarget struct {
 	Model  string // model field name
 	Arg    Expr   // row (nil = whole array)
 	Deref  Expr   // Go memory location *e / e.f (lvalue expression)
+	AllocClass string // restrict alloc(p, "Str") to one leaf class
+	Alloc  Expr   // alloc(p): every cell of the allocation p points into (plus function-local maps), e.g. the target of Unmarshal
+	Spare  Expr   // sparecap(s): the elements of s's backing array beyond len(s) (what append may write in place)
 	Nothing bool
 }
 
@@ -517,6 +520,23 @@ func parseAssigns(src string) ([]AssignTarget, error) {
 			}
 			switch x := e.(type) {
 			case *ECall:
+				if x.Fn == "alloc" && (len(x.Args) == 1 || len(x.Args) == 2) {
+					t := AssignTarget{Alloc: x.Args[0]}
+					if len(x.Args) == 2 {
+						// alloc(p, "Str"): only cells of that leaf class (M_Str) inside the allocation
+						if l, ok := x.Args[1].(*ELit); ok {
+							t.AllocClass = "M_" + l.Val
+						} else {
+							return nil, fmt.Errorf("assigns %s: second argument of alloc must be a leaf class literal such as \"Str\"", p)
+						}
+					}
+					out = append(out, t)
+					continue
+				}
+				if x.Fn == "sparecap" && len(x.Args) == 1 {
+					out = append(out, AssignTarget{Spare: x.Args[0]})
+					continue
+				}
 				t := AssignTarget{Model: x.Fn}
 				if len(x.Args) == 1 {
 					if u, ok := x.Args[0].(*EUn); ok && u.Op == "*" && u.X == nil {
